@@ -6,6 +6,7 @@ K-grouping : the real regroup_dbscan with DBSCAN replaced by its min_samples=1 c
 K-eps      : the arcmin -> chord conversions sliced from the AeReg command line and priorized_fit_islands
 K-resize   : the real cluster.resize(ratio=) on symbolic sizes"""
 import itertools
+import math
 import sys
 
 import numpy as real_np
@@ -167,6 +168,76 @@ def h_embedding(cl):
     return h
 
 
+def h_elliptical(cl, n, decorder):
+    """the elliptical-distance variant: real regroup_vectorized with the pair distance function replaced by FREE symbolic
+    distances (any adjacency pattern), sources at distinct declinations (decorder gives their order), equal RA"""
+    def h(c):
+        eps = real('eps')
+        c.assume(eps.e > 0)
+        rec = real_np.rec.fromrecords([(10.0, -5.0 + 0.001 * decorder[k], 30.0, 20.0, 0.0, float(k)) for k in range(n)], names=['ra', 'dec', 'a', 'b', 'pa', 'peak_flux'])
+        adj = {}
+
+        def dist(r, group_recs):
+            i = int(r.peak_flux)
+            out = []
+            for g in real_np.atleast_1d(group_recs):
+                j = int(g.peak_flux)
+                a, b = sorted((i, j))
+                d = real('d_%d_%d' % (a, b))
+                out.append(d)
+            return real_np.array(out, dtype=object)
+        for i in range(n):
+            for j in range(i + 1, n):
+                c.assume(real('d_%d_%d' % (i, j)).e >= 0)
+        groups = cl.regroup_vectorized(rec, eps=eps, far=1.0, dist=dist)
+        members = [[int(x) for x in g] for g in groups]
+        flat = sorted(x for g in members for x in g)
+        tag = 'regroup_vectorized[n=%d,dec order %s]' % (n, list(decorder))
+        c.oblige(tag + ':every source in exactly one group', z3.BoolVal(flat == list(range(n))))
+        # adjacency on this path: decide every pair (entailed where the code already compared it)
+        for i in range(n):
+            for j in range(i + 1, n):
+                adj[i, j] = c.decide(z3.Real('d_%d_%d' % (i, j)) < eps.e)
+        want = comps_of(n, adj)
+        got = sorted(sorted(g) for g in members)
+        bridged = got != sorted(want) and all(any(set(g) <= set(w) for w in want) for g in got)
+        c.oblige(tag + ':groups are the chain-connected components', z3.BoolVal(got == sorted(want)), info=dict(got=got, want=sorted(want), only_unmerged=bridged))
+        return dict(got=got, want=sorted(want))
+    return h
+
+
+def oracle_elliptical():
+    """real regroup() with the real norm_dist: C is linked to A and to B, A and B are not linked, C has the lowest declination"""
+    cl = loader.real('cluster')
+    models = loader.real('models')
+
+    def mk(x, y, f, k):
+        s = models.ComponentSource()
+        s.ra, s.dec = 10.0 + x / 3600., 0.0 + y / 3600.
+        s.a = s.b = 60.0
+        s.pa, s.peak_flux = 0.0, f
+        s.island, s.source = k, 0
+        return s
+    for pts in (((-70, 40), (70, 41), (0, 0)), ((-70, 40), (70, 41), (0, 80))):
+        A, B, C = [mk(x, y, 1.0 + k, k) for k, (x, y) in enumerate(pts)]
+        srcs = [A, B, C]
+        at = loader.real('angle_tools')
+        lim = 1.0 * math.hypot(60.0, 60.0)
+        sep = lambda p, q: at.gcd(p.ra, p.dec, q.ra, q.dec) * 3600
+        adj = {(i, j): sep(srcs[i], srcs[j]) < lim for i in range(3) for j in range(i + 1, 3)}
+        want = sorted(comps_of(3, adj))
+        for order in ([0, 1, 2], [2, 1, 0], [1, 2, 0]):
+            groups = cl.regroup([srcs[k] for k in order], eps=1.0)
+            got = sorted(sorted(srcs.index(s) for s in g) for g in groups)
+            flat = sorted(x for g in got for x in g)
+            if flat != [0, 1, 2]:
+                return True, 'not-a-partition', 'groups %s' % got
+            if got != want:
+                unmerged = all(any(set(g) <= set(w) for w in want) for g in got)
+                return True, ('bridge-not-merged' if unmerged else 'partition'), 'circular 60 arcsec sources at offsets %s arcsec, eps=1: groups %s but the chain-connected components are %s' % (list(pts), got, want)
+    return False, None, None
+
+
 def h_eps(where):
     def h(c):
         t = angle_deg('t')          # linking length in degrees; the option is 60*t arcmin
@@ -326,6 +397,28 @@ def run(rep):
         rep.stats(st)
         handle(rep, res, 'K-grouping')
     rep.end_kernel()
+    rep.kernel('K-elliptical', functions=[F + ':regroup_vectorized', F + ':regroup'], bounds='n <= 3 (thorough 4) sources at distinct declinations in every order, pair distances FREE symbols (every adjacency pattern), symbolic eps',
+               stubs=['dist (norm_dist) -> free symbolic pair distances (comparisons fork)', 'catalogue -> real numpy recarray with concrete distinct declinations and equal RA'],
+               outside=['norm_dist itself (ellipse radii along the joining line)', 'the far / rafar pre-filters (sources kept within them)'])
+    eplans = []
+    for n_ in ((2, 3, 4) if thorough else (2, 3)):
+        for perm in itertools.permutations(range(n_)):
+            if n_ == 4 and perm[0] > 1:
+                continue
+            eplans.append((h_elliptical(cl, n_, perm), dict(wall_s=300)))
+    edone = False
+    for st, res in core.explore_many(eplans, workers=16):
+        rep.stats(st)
+        for r in res:
+            for ob in r['obligations']:
+                rep.count(ob['result'], ob['name'])
+                if ob['result'] == 'sat' and not edone:
+                    bad, cls, detail = oracle_elliptical()
+                    if rep.finding('C19/K-elliptical/%s' % (cls or ob['name'].split(':')[-1]), dict(kind='elliptical'), detail or ob['name'], reproduced=bad) != 'not-reproduced':
+                        edone = True
+        if res and len(rep.samples) < 10:
+            rep.sample(dict(kernel='K-elliptical', paths=len(res), first=res[0]['out']))
+    rep.end_kernel()
     rep.kernel('K-eps', functions=['AegeanTools/CLI/AeReg.py:main', 'AegeanTools/source_finder.py:SourceFinder.priorized_fit_islands'], bounds='all linking lengths in (0, 90) degrees given in arcmin',
                assumes=['slice: the statement(s) assigning eps / regroup_eps; both chord conventions (sin theta and 2 sin(theta/2)) are accepted, they differ by < 4e-5 relative below 1 degree'])
     for where in ('AeReg', 'priorized'):
@@ -357,7 +450,7 @@ def run(rep):
     rep.validated_runs(2)
     if bad:
         rep.finding('C19/K-eps/%s' % cls, dict(kind='eps'), detail, kernel='K-eps')
-    rep.not_decided += ['the elliptical-distance variants regroup / regroup_vectorized', 'scikit-learn DBSCAN itself', 'more than 4 sources (symbolic); 1..9 sources only in the replay oracle']
+    rep.not_decided += ['norm_dist (the elliptical distance itself)', 'scikit-learn DBSCAN itself', 'more than 4 sources (symbolic); 1..9 sources only in the replay oracle']
 
 
 def handle(rep, res, kname):
@@ -377,6 +470,9 @@ def handle(rep, res, kname):
 
 def replay(w):
     wit = w['witness']
+    if wit.get('kind') == 'elliptical':
+        bad, cls, detail = oracle_elliptical()
+        return bad, '%s: %s' % (cls, detail)
     bad, cls, detail = eps_oracle() if wit.get('kind') == 'eps' else oracle(int(wit.get('seed', 5)), 200)
     return bad, '%s: %s' % (cls, detail)
 
